@@ -13,6 +13,7 @@ import (
 	"github.com/juev/hledger-lsp/internal/server"
 	"github.com/juev/hledger-lsp/internal/verifx/core"
 	_ "github.com/juev/hledger-lsp/internal/verifx/props"
+	_ "github.com/juev/hledger-lsp/internal/verifx/vatomic"
 	"github.com/juev/hledger-lsp/internal/verifx/wire"
 )
 
